@@ -23,7 +23,8 @@ CHECKS = {
             "subprocess reader fails closed on every exceptional exit; status plumbing Runner.failed -> run_internal -> "
             "sys.exit; the report channel is separated from test output; of everything user code may raise during discovery "
             "(import of a test module, test_suite()) only KeyboardInterrupt leaves find_suites (SystemExit becomes an "
-            "import failure). Not decided: header look-alike lines written "
+            "import failure); the list a layer failure is recorded in is the Runner's errors accumulator all the way up the "
+            "call chain. Not decided: header look-alike lines written "
             "straight to fd 2 by tests.",
             "CFG path rules + three-valued evaluation of the verdict expression + exception-escape analysis", "4/C02"),
     'C04': ("Exception containment: interprocedural escape sets of everything a layer setUp/tearDown or a debugged test "
@@ -35,8 +36,9 @@ CHECKS = {
             "exception-escape analysis + typestate exploration (abstract interpretation of the callbacks) + interface cross-check", "4/C04"),
     'C05': ("Per-test hooks: on every result-event sequence of both unittest protocol variants testSetUp/testTearDown are "
             "balanced, ordered (bases first / exact reverse) and complete; the layer list is order_by_bases(gathered "
-            "layers of this result's layer); hooks have one call site each, filtered only by hasattr of the hook called. "
-            "Not decided: a hook raising half-way through the list.",
+            "layers of this result's layer); hooks have one call site each, filtered only by hasattr of the hook called; "
+            "the post-mortem loop that drives the result itself calls stopTest after every startTest on every exit (CFG "
+            "with exception edges). Not decided: a hook raising half-way through the list.",
             "typestate exploration over the unittest driver protocol + def-use provenance", "4/C05"),
     'C07': ("Wire agreement between child report writer and parent reader (header fields by role, body order, one line "
             "per entry, line-break discipline), fail-closed reader on every exceptional exit, channel separation and "
@@ -52,7 +54,8 @@ CHECKS = {
             "def-use role tables + sibling cross-check + typestate counter", "4/C12"),
     'C13': ("Std streams: on every result-event sequence (incl. none = KeyboardInterrupt) sys.stdout/sys.stderr are the "
             "original objects after stopTest; no callback fails on the stream state; captured text reaches exactly the "
-            "failing test's report (uncrossed), never a passing test's; buffers rewound+truncated after every capture; "
+            "failing test's report (uncrossed), never a passing test's; once a test has reported a failure nothing it "
+            "writes later is captured and dropped; buffers rewound+truncated after every capture; "
             "every formatter emits both captured strings; no store to the std streams without --buffer and none outside "
             "the who-may-assign table; subunit forces --buffer. Not decided: fd-level writes, byte content.",
             "typestate exploration with stream-identity and capture tags + who-may-assign + def-use to sinks", "4/C13"),
@@ -139,7 +142,8 @@ CHECKS = {
             "from one counter, every low-link store is a min-update of the CURRENT parent (top of the ancestor list at "
             "that point on every path) with the returned child's low or a stacked neighbour's number, such an update is "
             "passed on every return to a parent (unless root) and for every stacked neighbour, the component is popped "
-            "down to exactly the root. NOT decided and not claimed: that these conditions are sufficient, i.e. that the "
+            "down to exactly the root; every set kept in the neighbour map is an object created by the graph itself "
+            "(freshness over reaching definitions, no alias of a caller's set). NOT decided and not claimed: that these conditions are sufficient, i.e. that the "
             "components are exactly the SCCs for every graph (algorithm correctness over data).",
             "forward must-alias data-flow analysis over the CFG + contradiction rule on map accesses + structural invariants", "4/C20"),
 }
